@@ -7,6 +7,7 @@ regex of each plugin rule (never written down) and the obligation `plugins_have_
 plugin rule has one.  What is not a theorem (tested by the differential oracle on the implementation):
 handler replacements / hooks being inert (spoiler's block_quote, fenced directive's fenced_code, task_lists
 hook, abbr's process_text), and that child sources only contain characters of the parent."""
+import os, re, json
 import common, gen, configs
 
 LEVEL = "proof"
@@ -74,7 +75,7 @@ def oracle(ctx, trig, n_docs, per_rule={}):
                 if cand:
                     chars.add(ctx.rng.choice(cand))
         else:
-            chars = trig.get(P) or set(EXTRA_TRIGGERS[P])
+            chars = trig.get(P) or set(EXTRA_TRIGGERS.get(P, ""))
         if P == "speedup" and ctx.rng.random() < 0.5:
             # speedup has no trigger characters: the documents C09 uses for its fast paths belong here too (line ends with blanks / tabs,
             # abbreviation keys that the text rule cuts into pieces, URLs, tables after plain lines)
@@ -114,6 +115,56 @@ def oracle(ctx, trig, n_docs, per_rule={}):
     return n
 
 
+BASELINE = os.path.join(os.path.dirname(os.path.dirname(os.path.abspath(__file__))), "baseline", "c10_triggers.json")
+
+
+def load_baseline():
+    try:
+        return json.load(open(BASELINE, encoding="utf-8"))
+    except Exception:
+        return None
+
+
+def sampler_part(ctx, baseline, n_per_rule):
+    """Strings drawn FROM the regular expressions of the rules each plugin registers now (and near misses: one character dropped), placed in a
+    line; kept when the line lacks a needed character of every rule the plugin had on the pinned tree (`baseline/c10_triggers.json`, the
+    documented syntax) and its hook triggers — i.e. when the document does not use the plugin's syntax; then converted with and without the
+    plugin.  On an unchanged tree the theorem makes this vacuous for exact samples (a match contains every needed character); it is the
+    directed search for a plugin whose syntax was widened."""
+    import mistune, rxsample
+    core = mistune.create_markdown()
+    n = 0
+    for P in [p for p in configs.PLUGINS if p != "speedup"]:
+        try:
+            withp = mistune.create_markdown(plugins=[P])
+        except Exception:
+            continue
+        pats = []
+        for side in ("inline", "block"):
+            a, b = getattr(core, side).specification, getattr(withp, side).specification
+            pats += [(k, v) for k, v in b.items() if a.get(k) != v]
+        base_rules = (baseline or {}).get(P, {})
+        extra = set(EXTRA_TRIGGERS.get(P, ""))
+        for rn, pat in pats:
+            ss = rxsample.samples(pat, ctx.rng, n_per_rule, re.M)
+            ss += [x[:i] + x[i + 1:] for x in ss[:n_per_rule // 2] for i in [ctx.rng.randrange(len(x))] if len(x) > 1]
+            for smp in ss:
+                doc = ctx.rng.choice(["%s\n", "word %s word\n", "see %s.\n", "- %s\n", "> a %s\n", "日本の%sです\n", "# %s\n", "a\n%s\nb\n"]) % smp
+                if any(c in doc for c in extra):
+                    continue
+                if not all(any(c not in doc for c in cs if c not in "\n ") for cs in base_rules.values() if [c for c in cs if c not in "\n "]):
+                    continue         # the line uses the plugin's documented syntax characters
+                n += 1
+                try:
+                    x, y = core(doc), withp(doc)
+                except Exception as e:
+                    continue
+                if x != y:
+                    ctx.fail("plugin-affects-trigger-free:%s" % P, "enabling %s changes the output of %r, which has none of the characters its syntax needs (rule %s now matches)" % (P, doc, rn),
+                             {"plugin": P, "base": [], "position": 0, "hard_wrap": False, "escape": True, "doc": doc, "without": x, "with": y})
+    return n
+
+
 def api_part(ctx):
     """speedup has no trigger characters: through mistune.markdown() and its argument-keyed converter cache, adding it must change nothing either (shared with C09)"""
     import importlib
@@ -127,7 +178,16 @@ def run(ctx):
         for rn, cs in rules.items():
             if not cs and rn not in ("text", "paragraph"):
                 ctx.broken.append("plugin %s rule %s has no needed character (trigger set not computable)" % (p, rn))
+    baseline = load_baseline()
+    if baseline is None:
+        ctx.broken.append("baseline/c10_triggers.json (needed characters of the plugin rules of the pinned tree) is missing")
+    else:
+        now = {p: {rn: sorted(cs) for rn, cs in rules.items()} for p, rules in per_rule.items()}
+        for p in sorted(set(now) | set(baseline)):
+            if now.get(p) != baseline.get(p):
+                ctx.broken.append("the characters plugin %s needs changed: pinned tree %s, now %s (the documented trigger set no longer covers its rules)" % (p, baseline.get(p), now.get(p)))
     n = oracle(ctx, trig, 6000 if ctx.quick() else 80000, per_rule)
+    n += sampler_part(ctx, baseline, 30 if ctx.quick() else 400)
     n += api_part(ctx)
     if ctx.broken and not ctx.failures:
         ctx.notes.append("search mode entered")
